@@ -34,7 +34,8 @@ REJECT = [
     'SELECT b, sum(a) FROM #t GROUP BY 2', 'SELECT a, b, sum(c) FROM #t GROUP BY b', 'SELECT b, sum(a) FROM #t GROUP BY b HAVING a > 1',
     'SELECT b, sum(a) FROM #t GROUP BY b ORDER BY a + sum(a)', 'SELECT count(count(*)) FROM #t', 'SELECT max(a + sum(a)) FROM #t',
     # positional references
-    'SELECT a FROM #t ORDER BY 0', 'SELECT a FROM #t ORDER BY 2', 'SELECT a, sum(c) FROM #t GROUP BY 0', 'SELECT a, sum(c) FROM #t GROUP BY 3',
+    'SELECT a FROM #t ORDER BY 0', 'SELECT a FROM #t ORDER BY 2', 'SELECT a, count(*) FROM #t GROUP BY a, b ORDER BY 3', 'SELECT a, count(*) FROM #t GROUP BY a HAVING count(*) > 0 ORDER BY 3',
+    'SELECT b, sum(a) FROM #t GROUP BY b, d ORDER BY 4', 'SELECT a FROM #t ORDER BY length(b), 2', 'SELECT a, count(*) FROM #t GROUP BY a, b, 3', 'SELECT a, sum(c) FROM #t GROUP BY 0', 'SELECT a, sum(c) FROM #t GROUP BY 3',
     'SELECT b, d, sum(a) FROM #t GROUP BY b, d PIVOT BY 0, 1', 'SELECT b, d, sum(a) FROM #t GROUP BY b, d PIVOT BY 1, 4', 'SELECT b, sum(a) FROM #t GROUP BY b, d PIVOT BY 1, 3',
     # pivot
     'SELECT b, d, sum(a) FROM #t GROUP BY b, d PIVOT BY b, b', 'SELECT b, d, sum(a) FROM #t GROUP BY b, d PIVOT BY 1, 1', 'SELECT b, d, sum(a) FROM #t GROUP BY b, d PIVOT BY b, zz',
@@ -51,7 +52,8 @@ LEDGER_ACCEPT = ['SELECT date, account FROM #postings', 'SELECT account, sum(pos
                  'SELECT date FROM year = 2020', 'SELECT date FROM OPEN ON 2020-01-01 CLOSE ON 2020-03-01 CLEAR', 'SELECT date FROM OPEN ON 2020-01-01 CLOSE',
                  'SELECT date FROM CLOSE', 'BALANCES FROM OPEN ON 2020-01-01 CLOSE', 'PRINT FROM OPEN ON 2020-02-01 CLOSE', 'JOURNAL "Assets" FROM CLOSE ON 2020-02-01',
                  'SELECT meta("ref"), entry_meta("ref"), any_meta("memo")', 'SELECT position.units.number, entry.flag']
-LEDGER_REJECT = ['SELECT date FROM OPEN ON 2020-03-01 CLOSE ON 2020-01-01', 'SELECT date FROM sum(number) > 1', 'SELECT position.nosuch', 'SELECT account.x', 'SELECT date FROM nosuchcol = 1',
+LEDGER_REJECT = ["SELECT meta['ref'] * position", "SELECT account WHERE tags > entry_meta('ref')", "SELECT meta['ref'] + tags", "SELECT position - any_meta('x')", "SELECT entry_meta('k') = meta", "SELECT balance + meta['x']",
+                 'SELECT date FROM OPEN ON 2020-03-01 CLOSE ON 2020-01-01', 'SELECT date FROM sum(number) > 1', 'SELECT position.nosuch', 'SELECT account.x', 'SELECT date FROM nosuchcol = 1',
                  'BALANCES AT nosuchfn', 'PRINT FROM nosuch = 1', 'SELECT date["k"]']
 
 
